@@ -86,6 +86,7 @@ type genEnv struct {
 	// catalogue support: force the violated rule / the branch an invalid operation is put into
 	forceKind   string // "" = draw
 	forceBranch int    // 0 = draw, 1 = success, 2 = failure
+	minimalTxn  bool   // the transaction carries nothing but the operation under test
 }
 
 func newGenEnv(lane int, hasFoll bool, createBudget int) *genEnv {
@@ -270,6 +271,9 @@ func (e *genEnv) compare(r *rand.Rand) *pb.Compare {
 func (e *genEnv) validTxn(r *rand.Rand, follower bool) *pb.TxnRequest {
 	readOnly := r.Intn(5) == 0
 	m := &pb.TxnRequest{Table: e.table(r, follower)}
+	if e.minimalTxn {
+		return m
+	}
 	for i, n := 0, r.Intn(3); i < n; i++ {
 		m.Compare = append(m.Compare, e.compare(r))
 	}
@@ -529,11 +533,13 @@ func (e *genEnv) tables(r *rand.Rand, n int, follower bool, hostile bool) *reque
 		q.Method, q.Msg, q.Kind = mCreate, &pb.CreateTableRequest{Name: e.stable[r.Intn(len(e.stable))]}, "tables-create-existing-table"
 	case x < 10:
 		q.Method, q.Msg, q.Kind = mDropTable, &pb.DeleteTableRequest{Name: e.ghosts[r.Intn(len(e.ghosts))]}, "tables-delete-unknown-table"
-	case x < 12 && hostile:
+	case x < 11 && hostile:
 		q.Method, q.Msg, q.Kind = mCreate, &pb.CreateTableRequest{Name: hostileNames(r)}, "probe:hostile-table-name"
-	case x < 16:
+	case x < 14 && e.created < e.createBudget:
 		// create a dynamic table (a duplicate if it exists already, the validator decides)
 		q.Method, q.Msg, q.Kind = mCreate, &pb.CreateTableRequest{Name: e.dyn[r.Intn(len(e.dyn))]}, "dyn-create"
+	case x < 14:
+		q.Method, q.Msg = mList, &pb.ListTablesRequest{}
 	default:
 		q.Method, q.Msg, q.Kind = mDropTable, &pb.DeleteTableRequest{Name: e.dyn[r.Intn(len(e.dyn))]}, "dyn-delete"
 	}
@@ -621,4 +627,52 @@ func render(msg any) string {
 		return "<does not decode>"
 	}
 	return fmt.Sprintf("%T", msg)
+}
+
+// inverted tells whether (key, range_end) denotes a range whose end is not above its start
+// (range_end present, not the "\0" wildcard, and <= key).
+func inverted(key, end []byte) bool {
+	if len(end) == 0 || len(key) == 0 || (len(end) == 1 && end[0] == 0) {
+		return false
+	}
+	return bytes.Compare(end, key) <= 0
+}
+
+// straighten removes inverted read bounds from a message (the range_end is dropped, the read
+// becomes a single-key read) and reports whether it found any. Only reads matter: they are what
+// builds an iterator with inverted bounds (Range, IterateRange, nested range, range compare,
+// range delete asking for prev_kv / count).
+func straighten(msg any) bool {
+	found := false
+	switch m := msg.(type) {
+	case *pb.RangeRequest:
+		if inverted(m.Key, m.RangeEnd) {
+			m.RangeEnd, found = nil, true
+		}
+	case *pb.DeleteRangeRequest:
+		if inverted(m.Key, m.RangeEnd) {
+			m.RangeEnd, found = nil, true
+		}
+	case *pb.TxnRequest:
+		for _, c := range m.Compare {
+			if c != nil && inverted(c.Key, c.RangeEnd) {
+				c.RangeEnd, found = nil, true
+			}
+		}
+		for _, ops := range [][]*pb.RequestOp{m.Success, m.Failure} {
+			for _, op := range ops {
+				switch o := op.GetRequest().(type) {
+				case *pb.RequestOp_RequestRange:
+					if o.RequestRange != nil && inverted(o.RequestRange.Key, o.RequestRange.RangeEnd) {
+						o.RequestRange.RangeEnd, found = nil, true
+					}
+				case *pb.RequestOp_RequestDeleteRange:
+					if o.RequestDeleteRange != nil && inverted(o.RequestDeleteRange.Key, o.RequestDeleteRange.RangeEnd) {
+						o.RequestDeleteRange.RangeEnd, found = nil, true
+					}
+				}
+			}
+		}
+	}
+	return found
 }
